@@ -111,7 +111,7 @@ PROPS = {
     ),
     "C08": dict(
         module="SeliumModel.Props.C08",
-        suites=["fanout", "pubsub", "reqrep"],
+        suites=["fanout", "pubsub", "reqrep", "regbig"],
         level="proof",
         rule="same suites as C01 with fault scripts at every (child, operation, position); monitors: only a child that answered Err is dropped, every healthy sink is called exactly once per operation and keeps its items, no panic; (request/reply half: see reqrep suite once claimed)",
         trusted_base=COMMON_TRUST + [
@@ -153,7 +153,7 @@ PROPS = {
     ),
     "C02": dict(
         module="SeliumModel.Props.C02",
-        suites=["reqrep"],
+        suites=["reqrep", "regbig"],
         level="proof",
         rule="reqrep: the real reqrep::Topic (and through it sink::Router) in a guarded child process (a poll that never returns is observed as a hang) under the wake-driven executor, around scripted requestor / replier sockets; hand-written scenarios for one-sided states, slow requestors with several replies, racing late repliers, unexpected frame kinds, failing replier sinks, forged / missing / malformed / unknown cid, shutdown, plus seeded random histories; every child call, poll result and waker holder compared with the Lean model (HashMap / StreamMap order taken from the observed run); monitors reconstruct the exchange from the mocks' logs; distinct = distinct case lines, trivial = scenarios without any socket",
         trusted_base=COMMON_TRUST + [
@@ -244,7 +244,7 @@ PROPS = {
     ),
     "C12": dict(
         module="SeliumModel.Props.C12",
-        suites=["e2erec", "e2ereq"],
+        suites=["e2erec", "e2ereq", "backoff"],
         level="proof",
         rule="library publisher / subscriber / replier / requestor over loopback QUIC; the harness cuts the client's QUIC connection with the verif-hooks method (1, 3, 4 and 6 successive outages against budgets of 1-3 attempts, i.e. more outages than one budget) and checks after each outage that traffic sent after recovery is carried; exhaustion: the server is replaced by an impostor with another CA so that every attempt fails, the stream must report too-many-retries; outcomes compared with the Lean retry model; distinct = distinct case lines",
         trusted_base=COMMON_TRUST + [
